@@ -86,14 +86,15 @@ Definition storage_values (st : vstate) : list sv := flat_map snd (sto_known st)
 Record c056case := mk_c056case {
   s_run : xrun; s_res : xa;
   s_preimages : list (N * N);     (* (keccak(i), i) for the small slot numbers whose hash occurs as a constant *)
-  s_strings : list N }.           (* constants the proxy-slot pass derives from well-known strings *)
+  s_strings : list N }.           (* keccak of the all-constant hashed data occurring in key trees (proxy-slot pattern) *)
 
 Definition all_states (r : xrun) : list vstate := match r with XRun _ _ sts _ _ _ _ => map fst sts | _ => [] end.
 
 (* constants attributable to executed storage accesses: leaves of key trees, plus table preimages *)
 Definition attributable (c : c056case) : list N :=
   let ks := flat_map (fun st => flat_map known_leaves (storage_keys st)) (all_states (s_run c)) in
-  ks ++ map snd (filter (fun p => existsb (N.eqb (fst p)) ks) (s_preimages c)) ++ s_strings c.
+  ks ++ map snd (filter (fun p => existsb (N.eqb (fst p)) ks) (s_preimages c)) ++ s_strings c
+     ++ flat_map (fun h => map (fun k => (h + k) mod 2 ^ 256) ks) (s_strings c).
 
 Definition no_storage_executed (c : c056case) : bool :=
   forallb (fun st => match sto_known st, sto_sym st with [], [] => true | _, _ => false end) (all_states (s_run c)).
